@@ -212,10 +212,11 @@ pub fn build_tree(g: u64, stem_len: usize, shape: &[usize], invalid_leaf: Option
     Ok(TreeWorld { w, stem, tb, invalid, shape: shape.to_vec() })
 }
 
-fn run_one(tw: &TreeWorld, order: &[usize], loading_done: bool, redeliver: bool, rep: &mut Report, ctx: &Value, variant: &str, seen: &mut BTreeSet<Hash>) {
+fn run_one(tw: &TreeWorld, order: &[usize], loading_done: bool, redeliver: bool, prune: u64, rep: &mut Report, ctx: &Value, variant: &str, seen: &mut BTreeSet<Hash>) {
     let w = &tw.w;
     let mut cfg = w.cfg.clone();
     cfg.blockchain.initial_loading_completed = loading_done;
+    cfg.consensus.prune_after_blocks = prune;
     let mut n = LedgerNode::new(key(0), cfg);
     let mut trace: Vec<String> = vec![];
     let mut orphan_seen = false;
@@ -351,15 +352,20 @@ pub fn main(tier: Tier, replay: Option<String>) -> i32 {
             for loading_done in [true, false] {
                 let ctx = json!({"g": g, "stem": stem, "shape": shape, "invalid_leaf": inv, "order": order, "loading_done": loading_done, "redeliver": false});
                 r.evaluations += 1;
-                run_one(&tw, order, loading_done, false, &mut r, &ctx, variant, &mut seen);
+                run_one(&tw, order, loading_done, false, 8, &mut r, &ctx, variant, &mut seen);
                 if r.samples.is_empty() {
                     r.sample(ctx.clone());
                 }
+                // the same delivery on a node that drops the transactions of every block below the
+                // tip from memory (prune_after_blocks = 1): every unwind reloads its block from disk
+                let ctx = json!({"g": g, "stem": stem, "shape": shape, "invalid_leaf": inv, "order": order, "loading_done": loading_done, "redeliver": false, "prune_after_blocks": 1});
+                r.evaluations += 1;
+                run_one(&tw, order, loading_done, false, 1, &mut r, &ctx, variant, &mut seen);
             }
             if inv.is_none() && order[0] < 2 {
                 let ctx = json!({"g": g, "stem": stem, "shape": shape, "invalid_leaf": inv, "order": order, "loading_done": true, "redeliver": true});
                 r.evaluations += 1;
-                run_one(&tw, order, true, true, &mut r, &ctx, "redeliver", &mut seen);
+                run_one(&tw, order, true, true, 8, &mut r, &ctx, "redeliver", &mut seen);
             }
         }
         (r, seen)
@@ -429,7 +435,8 @@ fn replay_case(path: &str) -> i32 {
     for _ in 0..2 {
         let mut r = Report::new("C03", Tier { thorough: false, seed: 0 }, "model_checking");
         let mut seen = BTreeSet::new();
-        run_one(&tw, &order, loading, redeliver, &mut r, ctx, "replay", &mut seen);
+        let prune = ctx["prune_after_blocks"].as_u64().unwrap_or(8);
+        run_one(&tw, &order, loading, redeliver, prune, &mut r, ctx, "replay", &mut seen);
         outs.push(r.violations.iter().map(|v| format!("{} :: {}", v.key, v.detail)).collect::<Vec<_>>());
     }
     if outs[0] != outs[1] {
